@@ -102,9 +102,23 @@ class Loaded:
             'explicit_ins': [self.name(x) for x in ids[:e]], 'implicit_ins': [self.name(x) for x in ids[e:e + im]],
             'order_only_ins': [self.name(x) for x in ids[e + im:e + im + oo]], 'validation_ins': [self.name(x) for x in ids[e + im + oo:]],
             'cmdline': opt('cmdline'), 'desc': opt('desc'), 'depfile': opt('depfile'), 'pool': opt('pool'),
+            'rspfile': self.rsp(b), 'showincludes': L.get(b, 'parse_showincludes'),
+            'hide_success': L.get(b, 'hide_success'), 'hide_progress': L.get(b, 'hide_progress'),
             'line': L.get(L.get(b, 'location'), 'line').v,
             'explicit_count_ok': oe <= len(oids),
         }
+
+    def rsp(self, b):
+        """(path bytes, content bytes) of the step's response file, or None"""
+        L = self.L
+        v = L.get(b, 'rspfile')
+        if v.variant == 'None':
+            return None
+        r = v.fields[0]
+        path = L.get(r, 'path')
+        while isinstance(path, Agg) and path.kind not in ('Vec', 'bytes') and path.fields:   # PathBuf -> OsString -> .. -> Vec<u8>
+            path = path.fields[0]
+        return list(path.fields), list(L.get(r, 'content').fields[0].fields)
 
     def defaults(self):
         return [self.name(x) for x in self.L.get(self.loader, 'default').fields]
